@@ -5,6 +5,7 @@ package simhost
 
 import (
 	"fmt"
+	"os"
 	"strconv"
 	"strings"
 	"time"
@@ -87,6 +88,7 @@ type Host struct {
 	removed      bool
 	selfRemoved  bool
 	crashedBefore bool
+	snapDir      string
 	role         int  // current role as far as the harness knows
 	joinRole     int  // role it was first added with: what its config must say
 	addIssued    bool // an add request for it is outstanding or of unknown outcome
@@ -293,6 +295,9 @@ func (s *Sim) boot(h *Host) {
 	h.started = false
 	if h.joined && !h.removed {
 		s.startReplica(h)
+		if h.started {
+			s.checkSnapshotDir(h)
+		}
 	}
 	h.up = true
 	h.booting = false
@@ -346,6 +351,7 @@ func (s *Sim) tryStartReplica(h *Host) bool {
 		panic(fmt.Sprintf("StartReplica failed: %v", err))
 	}
 	h.started = true
+	h.snapDir = h.nh.VerifSnapshotDir(shardID, h.replicaID)
 	return true
 }
 
@@ -945,6 +951,9 @@ func (s *Sim) crashHost(h *Host, teardown bool) {
 		}
 	}
 	h.disk.Crash(torn)
+	if !teardown {
+		s.markSnapshotDirs(h)
+	}
 	delete(s.trToHost, h.tr)
 	h.busy = nil
 	s.ex.KillHost(h.id)
@@ -965,10 +974,15 @@ func (s *Sim) restartHost(h *Host) {
 	s.runTask("boot", h, "boot", func() { s.boot(h) })
 }
 
+var fsTrace = os.Getenv("VERIF_FSTRACE") != ""
+
 // ---- simfs.Env ----
 
 // FSOp is called before every file system operation of any host.
 func (s *Sim) FSOp(d *simfs.Disk, op simfs.Op, path string, size int, index int64) (error, int) {
+	if fsTrace && op.Mutating() {
+		s.ctx.Tracef("fs %s %s %s", d.Name, op, path)
+	}
 	if op.Mutating() {
 		s.ex.Yield("fs."+op.String(), uint64(index))
 	}
